@@ -154,8 +154,20 @@ func c14Case(o *Out, kind string, which int, viaYaml bool, wl, bl []string, prob
 				_, _ = h.HandleScrape(context.Background(), &bittorrent.ScrapeRequest{InfoHashes: []bittorrent.InfoHash{wreq.InfoHash}}, &bittorrent.ScrapeResponse{})
 			}
 		}
-		nctx, aerr := h.HandleAnnounce(ctx, req, resp)
+		var nctx context.Context
+		var aerr error
+		apanic := false
+		func() {
+			defer func() {
+				if r := recover(); r != nil {
+					apanic = true
+				}
+			}()
+			nctx, aerr = h.HandleAnnounce(ctx, req, resp)
+		}()
 		switch {
+		case apanic:
+			ann = 2 // crashed: neither accepted nor refused with the package's error
 		case aerr == nil:
 			ann = 0
 		case which == 0 && aerr == error(clientapproval.ErrClientUnapproved), which == 1 && aerr == error(torrentapproval.ErrTorrentUnapproved):
@@ -167,9 +179,21 @@ func c14Case(o *Out, kind string, which int, viaYaml bool, wl, bl []string, prob
 		// scrape naming the same infohash (and another one)
 		sreq := &bittorrent.ScrapeRequest{AddressFamily: bittorrent.IPv4, InfoHashes: []bittorrent.InfoHash{ih, bittorrent.InfoHashFromBytes(other)}}
 		sresp := &bittorrent.ScrapeResponse{}
-		sctx, serr := h.HandleScrape(ctx, sreq, sresp)
+		var sctx context.Context
+		var serr error
+		spanic := false
+		func() {
+			defer func() {
+				if r := recover(); r != nil {
+					spanic = true
+				}
+			}()
+			sctx, serr = h.HandleScrape(ctx, sreq, sresp)
+		}()
 		scr = 0
-		if serr != nil {
+		if spanic {
+			scr = 3 // the scrape crashed request handling: not answered at all
+		} else if serr != nil {
 			scr = 1
 		} else if len(sreq.InfoHashes) != 2 || sreq.InfoHashes[0] != ih || sreq.InfoHashes[1] != bittorrent.InfoHashFromBytes(other) {
 			scr = 2 // the scrape goes on, but without some of the infohashes it named: blocked in part
